@@ -7,55 +7,33 @@ package main
 // follower must recover through its own retry on the next notification).
 
 import (
-	"bufio"
-	"bytes"
 	"fmt"
-	"strings"
 )
 
 type faultGen struct {
+	rw   *lineRewriter
 	g    *Gen
-	sub  *Gen
-	buf  *bytes.Buffer
 	l    *ledGen
 	skip bool // a notification was skipped and no later one was delivered yet
 }
 
 func newFaultGen(g *Gen) *faultGen {
-	f := &faultGen{g: g, buf: &bytes.Buffer{}}
-	f.sub = &Gen{Engine: "fault", Prop: g.Prop, Tier: g.Tier, Seed: g.Seed, Rng: g.Rng, Stats: g.Stats}
-	f.sub.w = bufio.NewWriter(f.buf)
-	f.l = newLedGen(f.sub, "fault")
-	return f
+	rw := newLineRewriter(g, "fault")
+	return &faultGen{rw: rw, g: g, l: rw.l}
 }
 
 // flush moves the lines ledGen produced into the real stream, wrapping wallet operations.
 func (f *faultGen) flush(pSweep int) {
-	f.sub.w.Flush()
-	lines := strings.Split(strings.TrimRight(f.buf.String(), "\n"), "\n")
-	f.buf.Reset()
-	for _, ln := range lines {
-		if ln == "" {
-			continue
-		}
-		if ln == "reset" {
-			f.g.Reset()
-			f.g.Stats["reset"]-- // counted by the sub generator already
-			continue
-		}
-		body := strings.TrimPrefix(ln, "fault ")
-		op := strings.Fields(body)[0]
-		r := f.g.Rng
-		wrapped := body
-		class := ""
+	r := f.g.Rng
+	f.rw.flush(func(op, body string) (string, string) {
 		switch op {
 		case "wallet", "addr", "notify", "recvtx":
 			if op == "notify" && r.Intn(9) == 0 {
 				sel := []string{"begin", "commit", "commit", "1", "2"}[r.Intn(5)]
-				wrapped = fmt.Sprintf("skip %s %s", sel, body)
-				class = "skip-" + sel
 				f.skip = true
-			} else if r.Intn(100) < pSweep || op == "addr" && r.Intn(2) == 0 {
+				return "skip-" + sel, fmt.Sprintf("skip %s %s", sel, body)
+			}
+			if r.Intn(100) < pSweep || op == "addr" && r.Intn(2) == 0 {
 				k := 1
 				if r.Intn(4) == 0 {
 					k = 3
@@ -63,28 +41,19 @@ func (f *faultGen) flush(pSweep int) {
 				t := 0
 				if op == "addr" || op == "wallet" || r.Intn(6) == 0 {
 					t = 1
-				}
-				wrapped = fmt.Sprintf("sweep %d %d %s", k, t, body)
-				class = fmt.Sprintf("sweep%d-%s", k, op)
-				if t == 1 {
 					f.g.Stats["sweep-twin"]++
 				}
 				if op == "notify" {
 					f.skip = false
 				}
-			} else if op == "notify" {
+				return fmt.Sprintf("sweep%d-%s", k, op), fmt.Sprintf("sweep %d %d %s", k, t, body)
+			}
+			if op == "notify" {
 				f.skip = false
 			}
 		}
-		f.g.N++
-		fmt.Fprintln(f.g.w, "fault "+wrapped)
-		if class != "" {
-			f.g.Stats[class]++
-		}
-		if len(f.g.sample) < 12 && class != "" && f.g.Stats[class] <= 1 {
-			f.g.sample = append(f.g.sample, "fault "+wrapped)
-		}
-	}
+		return "", body
+	})
 }
 
 func genFault(g *Gen) {
@@ -104,6 +73,7 @@ func genFault(g *Gen) {
 			case k < 11:
 				l.reorgTo(1+g.Rng.Intn(g.Scale(3, 6)), 1+g.Rng.Intn(2))
 			case k < 15:
+				prunePool(l)
 				l.recv()
 			case k < 17:
 				l.newAddr(l.wallets[g.Rng.Intn(len(l.wallets))])
